@@ -134,21 +134,168 @@ theorem wFramesLoop_spec (hv : AllValid exts nbF) (hnf : nbF ≤ 48) (hmxl : mx.
       rw [hst, wFrameLoop_plain hv f det _ _ s (hmx f hlt) (fun i' _ _ h => by omega)]
       rw [W.bind_of_ok _ rfl]
       simp only
-      have hI' : FInv exts mx nbF (f + 1) { s with written := s.written + (seg exts (s.minIdx.getD f 0) (mx.getD f 0) f).length, currFrame := lastFrame s.currFrame (seg exts (s.minIdx.getD f 0) (mx.getD f 0) f) } := by
+      have hrq : seg exts (s.minIdx.getD f 0) (mx.getD f 0) f = remQ exts mx s.minIdx f := rfl
+      simp only [hrq]
+      have hI' : FInv exts mx nbF (f + 1) { s with written := s.written + (remQ exts mx s.minIdx f).length, currFrame := lastFrame s.currFrame (remQ exts mx s.minIdx f) } := by
         refine ⟨hI.lmin, hI.lrep, fun g h1 h2 => hI.eq g (by omega) h2, fun g h1 h2 => hI.clean g (by omega) h2,
           fun g h1 h2 => hI.bound g (by omega) h2, ?_⟩
         simp only
         rw [lastFrame_same _ _ (fun e he => (hav e he).2)]
         have := hI.cur
         split <;> omega
-      obtain ⟨sF, h1, h2, h3⟩ := ih _ hI' (by simp only; unfold remQ at hcount; omega)
+      obtain ⟨sF, h1, h2, h3⟩ := ih _ hI' (by simp only; omega)
       refine ⟨sF, h1, h2, ?_⟩
       rw [content_append, h3, serOps_contentW hnf exts.size _ _ _ (fun e he => (hav e he).1)
         (frameSorted_const hI.cur (fun e he => (hav e he).2)).1]
       simp only [List.take_zero, List.drop_zero, serW, List.nil_append, Nat.lt_irrefl, if_false, false_and, repBlock_zero,
         curAfter, lastFrame, Nat.add_zero, Nat.zero_mul, map_drop_zero, List.append_nil]
-      rfl
-    · sorry
+    · -- a repeat block
+      have hRpos : 0 < R := by omega
+      obtain ⟨hlne, hRc⟩ := blockR_pos (hRdef ▸ hRpos)
+      rw [hRdef] at hRc
+      obtain ⟨hRa, hRl⟩ := repCount_spec (remQ exts mx s.minIdx f) (remsFrom exts mx s.minIdx nbF (f + 1))
+      rw [← hRc] at hRa hRl
+      have hf1 : f + 1 < nbF := by
+        have : 0 < (remsFrom exts mx s.minIdx nbF (f + 1)).length := List.length_pos_iff.mpr hlne
+        rw [hlen_later] at this; omega
+      obtain ⟨p1, p2, ⟨eR, heR, hfR⟩, p4⟩ := hspec.pos hRpos
+      generalize hiRdef : det.rep.getD f 0 = iR at p1 p2 heR p4
+      have hrq : seg exts (s.minIdx.getD f 0) (mx.getD f 0) f = remQ exts mx s.minIdx f := rfl
+      -- the repeated prefix and the rest, as index ranges
+      have hsplit := seg_split exts f (show s.minIdx.getD f 0 ≤ iR + 1 by omega) (show iR + 1 ≤ mx.getD f 0 by omega)
+      have hprelen : (seg exts (s.minIdx.getD f 0) (iR + 1) f).length = R := by
+        rw [seg_mem_ne (hi := iR + 1) p1 (by omega) heR hfR, seg_empty exts f (Nat.le_refl _)]
+        simp only [List.length_append, List.length_cons, List.length_nil]; omega
+      have hpre : (remQ exts mx s.minIdx f).take R = seg exts (s.minIdx.getD f 0) (iR + 1) f := by
+        rw [← hrq, hsplit, List.take_left' hprelen]
+      have hpostq : (remQ exts mx s.minIdx f).drop R = seg exts (iR + 1) (mx.getD f 0) f := by
+        rw [← hrq, hsplit, List.drop_left' hprelen]
+      have hlaterlen : (remsFrom exts mx s.minIdx nbF (f + 1)).length = nbF - (f + 1) := hlen_later
+      have htot := total_map_drop R (remsFrom exts mx s.minIdx nbF (f + 1)) (fun r hr => (hRl r hr).1)
+      have htake := takeTotal_eq R (remsFrom exts mx s.minIdx nbF (f + 1)) (fun r hr => (hRl r hr).1)
+      have hpostlen : ((remQ exts mx s.minIdx f).drop R).length = (remQ exts mx s.minIdx f).length - R := by simp
+      -- `last_long_idx`
+      have hll := hspec.ll
+      simp only at hll
+      have hllnone : det.lastLong = none ↔ lastLongPos ((remQ exts mx s.minIdx f).take R) = none := by
+        cases hlp : lastLongPos ((remQ exts mx s.minIdx f).take R) with
+        | none => rw [hlp] at hll; simp only at hll; rw [hll]
+        | some k => rw [hlp] at hll; obtain ⟨jL, hj, _⟩ := hll; rw [hj]; simp
+      -- `last`
+      have hpostempty : (remQ exts mx s.minIdx f).drop R = [] ↔ mx.getD f 0 ≤ iR + 1 := by
+        rw [hpostq]
+        constructor
+        · intro h
+          apply Decidable.byContradiction; intro hc
+          rcases hlastp f hlt with h0 | ⟨e, he, hfe⟩
+          · omega
+          · have := seg_mem_ne (lo := iR + 1) (j := mx.getD f 0 - 1) (hi := mx.getD f 0) (g := f) (by omega) (by omega) he hfe
+            rw [h] at this
+            have := congrArg List.length this; simp at this
+        · intro h; exact seg_empty exts f h
+      have hlast_iff : last = true ↔ (s.written + R + det.repeatCount * (nbF - (f + 1)) = exts.size ∨
+          (det.lastLong = none ∧ mx.getD f 0 ≤ iR + 1)) := by
+        rw [← hlastdef]; unfold blockLast
+        simp only [hRdef, Bool.or_eq_true, decide_eq_true_eq, Bool.and_eq_true, List.isEmpty_iff]
+        rw [hlaterlen, hcnt, hllnone, hpostempty]
+      have hlastV : last = decide (s.written + R + det.repeatCount * (nbF - (f + 1)) = exts.size ∨
+          (det.lastLong = none ∧ mx.getD f 0 ≤ iR + 1)) := by
+        cases hl : last with
+        | true => symm; rw [decide_eq_true_eq]; exact hlast_iff.mp hl
+        | false => symm; rw [decide_eq_false_iff_not]; intro h; have := hlast_iff.mpr h; rw [hl] at this; cases this
+      have hpost0 : last = true → seg exts (iR + 1) (mx.getD f 0) f = [] := by
+        intro hl
+        rcases hlast_iff.mp hl with h | h
+        · rw [← hpostq]; apply List.eq_nil_of_length_eq_zero
+          rw [hcnt, ← hlaterlen] at h
+          rw [hpostlen]; omega
+        · exact seg_empty exts f h.2
+      -- the queues of the later frames, seen through `det.rep`
+      have hup := hspec.upper
+      simp only at hup
+      have hremq_rep : ∀ g, f + 1 ≤ g → g < nbF → remQ exts mx s.repIdx g = remQ exts mx s.minIdx g := by
+        intro g h1 h2; unfold remQ; rw [hI.eq g (by omega) h2]
+      obtain ⟨sF, r1, r2, r3, r4, r5, r6, r7, r8⟩ := wFrameLoop_rep hv hnf mx f hf1 det (by omega) iR (mx.getD f 0) p2 (hmx f hlt)
+        eR heR hfR (s.written + R) (lastLongPos ((remQ exts mx s.minIdx f).take R)) det.rep hspec.len hiRdef last hlastV hpost0
+        (s.minIdx.getD f 0) { s with repIdx := det.rep } p1 rfl hI.lmin (by simp only; omega) hI.cur
+        (fun g h1 h2 => by
+          obtain ⟨u1, u2, u3, u4, u5⟩ := hup g (by omega) h2
+          have hb := hI.bound g (by omega) h2
+          have hm := hmx g h2
+          rw [hI.eq g (by omega) h2] at u2 u3 u5
+          rw [hremq_rep g h1 h2] at u5
+          simp only
+          rw [hcnt]
+          exact ⟨u2, by omega, u5⟩)
+        (fun g j' e h1 h2 he hfe hcon => by
+          cases hlp : lastLongPos ((remQ exts mx s.minIdx f).take R) with
+          | none => rw [hlp] at hll; simp only at hll; rw [hll] at hcon; cases hcon.2
+          | some k =>
+            rw [hlp] at hll
+            obtain ⟨jL, hj, ⟨eL, heL, hfL⟩, _⟩ := hll
+            rw [hj] at hcon
+            have : jL = j' := by simpa using hcon.2
+            subst this; rw [heL] at he; cases he; omega)
+        (fun j' e h1 h2 h3 he hfe => by
+          cases hlp : lastLongPos ((remQ exts mx s.minIdx f).take R) with
+          | none =>
+            rw [hlp] at hll; simp only at hll; rw [hll]
+            constructor
+            · intro h; cases h.2
+            · intro h; split at h <;> cases h
+          | some k =>
+            rw [hlp] at hll
+            obtain ⟨jL, hj, ⟨eL, heL, hfL⟩, j3, j4, j5⟩ := hll
+            simp only at j3 j5
+            rw [hI.eq (nbF - 1) (by omega) (by omega)] at j3 j5
+            rw [hj]
+            constructor
+            · rintro ⟨hl, hjj⟩
+              have : jL = j' := by simpa using hjj
+              subst this
+              simp [hl, j5]
+            · intro h
+              by_cases hl : last = true
+              · simp only [hl, if_true, Option.some.injEq, Nat.zero_add] at h
+                refine ⟨hl, ?_⟩
+                congr 1
+                exact seg_pos_inj j3 h2 heL he hfL hfe (by omega)
+              · simp only [hl, if_false] at h; cases h)
+      simp only at r4 r5 r6 r8
+      rw [hcnt] at r6 r8
+      rw [htake] at r6 r8
+      -- the next frame
+      have hremsF : remsFrom exts mx sF.minIdx nbF (f + 1) = (remsFrom exts mx s.minIdx nbF (f + 1)).map (List.drop R) :=
+        remsFrom_congr (List.drop R) (fun g h1 h2 => by
+          obtain ⟨u1, u2, u3, u4, u5⟩ := hup g (by omega) h2
+          unfold remQ at u4 ⊢
+          rw [r5 g h1 h2, u4, hI.eq g (by omega) h2])
+      have hI' : FInv exts mx nbF (f + 1) sF := by
+        refine ⟨r3, by rw [r2]; exact hspec.len, fun g h1 h2 => by rw [r2, r5 g h1 h2],
+          fun g h1 h2 => by rw [r5 g h1 h2]; exact (hup g (by omega) h2).1,
+          fun g h1 h2 => by
+            rw [r5 g h1 h2]
+            obtain ⟨u1, u2, u3, u4, u5⟩ := hup g (by omega) h2
+            have hb := hI.bound g (by omega) h2
+            have hm := hmx g h2
+            rw [hI.eq g (by omega) h2] at u3; omega, ?_⟩
+        rw [r7]
+        have hpv : ∀ e ∈ seg exts (iR + 1) (mx.getD f 0) f, e.frame.toNat = f := by
+          intro e he; rw [← hpostq] at he; exact (hav e (List.mem_of_mem_drop he)).2
+        rw [lastFrame_same _ _ hpv]
+        (repeat' split) <;> omega
+      obtain ⟨sG, g1, g2, g3⟩ := ih sF hI' (by rw [hremsF, r6, ← hpostq, hpostlen]; omega)
+      rw [W.bind_of_ok _ r1]
+      refine ⟨sG, g1, g2, ?_⟩
+      rw [content_append, r8, g3, hremsF, r6, r7]
+      have hcur1 : curAfter s.currFrame ((remQ exts mx s.minIdx f).take R) = f := by
+        unfold curAfter
+        rw [lastFrame_same _ _ (fun e he => (hav e (List.mem_of_mem_take he)).2)]
+        have : (remQ exts mx s.minIdx f).take R ≠ [] := by
+          intro h; have := congrArg List.length h; rw [hpre, hprelen] at this; simp at this; omega
+        simp [this]
+      simp only [hRpos, if_true, true_and, hcur1, hpre, hpostq, curAfter, hlaterlen, List.append_assoc]
+      rw [← hpre]
   | case2 f s hge =>
     intro hI hcount
     rw [remsFrom_end exts mx s.minIdx (by omega)] at hcount ⊢
